@@ -57,6 +57,8 @@ func (d *Dir) Sys() interface{} {
 
 // Size is length in bytes for regular files; system-dependent for others
 func (d *Dir) Size() int64 {
+	d.mu.RLock()
+	defer d.mu.RUnlock()
 	return int64(len(d.nodes))
 }
 
